@@ -1612,7 +1612,8 @@ class ScopeStack:
                             try:
                                 producer = self.scopes[tuple(location)]
                                 if isinstance(producer.template, Component) is False:
-                                    continue
+                                    # VV: the reference points into a Workflow instance, there is no Component to follow
+                                    producer = None
                                 break
                             except KeyError:
                                 # VV: This location doesn't map to a component. The OutputReference must be pointing
